@@ -78,11 +78,3 @@ def NAME_ITER(body, ctx):
         pos = mi.end()
     out.append(body[pos:])
     return ''.join(out), n
-
-
-def TODO_PANIC(body, ctx):
-    """`todo!(ARGS)` -> `panic!(ARGS)`. std: `todo!` "will always panic!" (it expands to
-    `panic!("not yet implemented: {}", format_args!(ARGS))`); Verus treats `panic!` as an
-    unreachable-obligation, so each occurrence becomes a precondition of the function."""
-    rx = re.compile(r'(?<![A-Za-z0-9_:])todo\s*!\s*(?=\()')
-    return _sub_code(body, rx, lambda m: 'panic!')
